@@ -40,6 +40,11 @@ structure Input where
   cancelled : Bool
   /-- every instance has its own copy of the profile (`rps-per-instance`) -/
   perInst : Bool := false
+  /-- instant (ns on the observation's axis) before which the run context was certainly NOT cancelled (`cancel=<ms>`: the
+  cancelling timer is armed after the axis' origin); 0 when the run is not cancelled -/
+  cancelAt : Int := 0
+  /-- duration of the startup schedule (instances are started over time), ns; 0 = all instances at once -/
+  startDur : Int := 0
 deriving Repr
 
 /-- what the pandora process left in its phout file (mode=proc) -/
@@ -52,6 +57,10 @@ structure ProcObs where
   served : Nat
   /-- fewest discarded samples of a pool -/
   minDisc : Nat
+  /-- requests that ARRIVED at the target (counted at handler entry) -/
+  recv : Nat := 0
+  /-- result lines of fired requests that carry a net error (connection trouble: the request may not have reached the target) -/
+  errs : Nat := 0
 deriving Repr
 
 /-- mode=proc: `given` = what the pool section of the config says about discard_overflow. With one instance, all tokens
@@ -60,6 +69,10 @@ machine load is: a run with discard_overflow on (`effectiveDiscard given`) must 
 both right), one with it off none, and every token must show up exactly once. -/
 def judgeProc (given : Option Bool) (o : ProcObs) : String :=
   if o.rc != "0" then s!"skip:pandora-process-did-not-finish-normally-rc={o.rc}"
+  -- "not fired but reported as a discarded sample": every result line that is not a discarded sample is a request the target
+  -- received, and a discarded token never reaches the target
+  else if o.errs == 0 && o.recv != o.fired then
+    s!"fail:discard-sample:{o.fired} result lines are not discarded samples but the target received {o.recv} requests (discarded={o.disc})"
   else if effectiveDiscard given then
     if o.bad > 0 then s!"fail:discard-sample:bad={o.bad}"
     else if o.minDisc == 0 then s!"fail:late-fired:a pool without any discarded sample although discard_overflow is on by default or explicitly; fired={o.fired},discarded={o.disc}"
@@ -94,7 +107,32 @@ def countDec (o : Obs) (c : Char) : Nat := ((allEntries o).filter (·.dec == c))
 def boundFail : Int := 1000000000
 def boundMargin : Int := 250000000
 
+/-- per-instance schedules start when their instance is started: the profile of the last instance begins `startDur` late -/
+def extraStart (i : Input) : Int := if i.perInst then i.startDur else 0
+
 def render (e : Entry) : String := s!"tok={e.tok},pick={e.pick},ret={e.ret},dec={e.dec}"
+
+def isLateFired (e : Entry) : Bool := e.dec == 'F' && e.pick - e.tok ≥ maxOverdue
+
+/-- discard_overflow on: a token fired although it was ≥ 2 s late when picked up. In a run that is not cancelled: a failure. In a
+cancelled run `IsSlowDown` answers false on a done context (`C04_discarded_if_late_any_ctx_counterexample`), but only then
+(`C04_cancel_one_late_shot`): such a shot must have been fired after the instant of cancellation and must be the last action of its
+instance; anything else is a failure, the corner itself is outside the property's quantifier (skip). -/
+def lateFiredVerdict (i : Input) (o : Obs) : Option String :=
+  let bad := o.seqs.findSome? fun s =>
+    let acted := s.filter (fun e => e.dec == 'F' || e.dec == 'D')
+    match acted.find? isLateFired with
+    | none => none
+    | some e =>
+      if !i.cancelled then some s!"fail:late-fired:picked up {(e.pick - e.tok) / 1000000} ms late, fired; {render e}"
+      else if e.ret < i.cancelAt then
+        some s!"fail:late-fired:picked up {(e.pick - e.tok) / 1000000} ms late, fired before the run was cancelled; {render e}"
+      else if acted.getLast? != some e then
+        some s!"fail:late-fired:picked up {(e.pick - e.tok) / 1000000} ms late, fired in a cancelled run, but not as the last action of its instance; {render e}"
+      else none
+  match bad with
+  | some v => some v
+  | none => if (allEntries o).any isLateFired then some "skip:late-token-fired-in-a-cancelled-run" else none
 
 /-- verdict: "ok" | "skip:<why>" | "fail:<key>:<detail>" -/
 def judge (i : Input) (o : Obs) : String :=
@@ -108,11 +146,8 @@ def judge (i : Input) (o : Obs) : String :=
   let runLen := o.endT - start
   let complete := i.mode == "engine" && !i.cancelled && o.err == "nil"
   if i.discard then
-    match acted.find? (fun e => e.dec == 'F' && e.pick - e.tok ≥ maxOverdue) with
-    | some e =>
-      -- `IsSlowDown` answers false on a done context: in a cancelled run such a shot is outside the property's quantifier
-      if i.cancelled then "skip:late-token-fired-in-a-cancelled-run"
-      else s!"fail:late-fired:picked up {(e.pick - e.tok) / 1000000} ms late, fired; {render e}"
+    match lateFiredVerdict i o with
+    | some v => v
     | none =>
     match acted.find? (fun e => e.dec == 'D' && e.ret - e.tok < maxOverdue) with
     | some e => s!"fail:fresh-discarded:{(e.ret - e.tok) / 1000000} ms late, discarded; {render e}"
@@ -124,9 +159,9 @@ def judge (i : Input) (o : Obs) : String :=
       s!"fail:lost-token:fired={countDec o 'F'},discarded={countDec o 'D'},total={o.total}"
     else if complete && !tokenSetOk i o then
       s!"fail:lost-token:the tokens acted on are not the tokens of the profile"
-    else if i.mode == "engine" && !i.cancelled && runLen > i.profDur + maxOverdue + i.maxResp + boundFail then
-      s!"fail:run-bound:length={runLen / 1000000}ms,bound={(i.profDur + maxOverdue + i.maxResp) / 1000000}ms"
-    else if i.mode == "engine" && !i.cancelled && runLen > i.profDur + maxOverdue + i.maxResp + boundMargin then
+    else if i.mode == "engine" && !i.cancelled && runLen > i.profDur + extraStart i + maxOverdue + i.maxResp + boundFail then
+      s!"fail:run-bound:length={runLen / 1000000}ms,bound={(i.profDur + extraStart i + maxOverdue + i.maxResp) / 1000000}ms"
+    else if i.mode == "engine" && !i.cancelled && runLen > i.profDur + extraStart i + maxOverdue + i.maxResp + boundMargin then
       "skip:inconclusive-run-length"
     else "ok"
   else
